@@ -563,6 +563,9 @@ func (m *Model) DeliverTx(t *TxInfo) {
 		if r.Sign() != 0 || q.Sign() <= 0 {
 			m.find("C11", "stake-amount-not-whole-power", site, "staking of %s succeeded", t.Amount)
 		}
+		if !q.IsInt64() {
+			m.find("C02", "stake-power-not-representable", site, "staking of %s (power %s, more than a signed 64-bit power can hold) succeeded", t.Amount, q)
+		}
 		d, ok := m.Deleg[t.To]
 		if !ok {
 			if t.From != t.To {
